@@ -25,6 +25,58 @@ CHECKS = {
         technique="bounded-exhaustive stateless exploration of the implementation under an "
                   "owned MILP back end (all optimal answers enumerated) vs enumeration oracle",
         note=LP_NOTE),
+    "C01": dict(
+        category="model_checking",
+        text="Stateless exploration of the real solver for every instance x option vector of the "
+             "families; every optimal solution class the back end may return at the last solve is "
+             "answered in turn (with no criterion: every feasible 0/1 point). Oracle on the printed "
+             "matching line and long listing: reference validity (listed project, project and "
+             "lecturer quotas, closure rule, one project per student).",
+        design_ref="DESIGN.md 5 C01",
+        technique="bounded-exhaustive stateless exploration under an owned MILP back end, all optimal answers enumerated",
+        note=LP_NOTE),
+    "C03": dict(
+        category="model_checking",
+        text="For each single criterion with every argument vector of the small domain, every "
+             "optimal class the back end may return is explored and the criterion's value on the "
+             "printed matching is compared with the optimum over the reference feasible set.",
+        design_ref="DESIGN.md 5 C03",
+        technique="bounded-exhaustive stateless exploration under an owned MILP back end vs enumeration optimum",
+        note=LP_NOTE),
+    "C04": dict(
+        category="model_checking",
+        text="Ordered pairs (thorough: triples) of criteria with gapped positions and permuted flag "
+             "order; every optimal class of the final integer program must lie in the lexicographic "
+             "optimum set computed by enumeration.",
+        design_ref="DESIGN.md 5 C04",
+        technique="bounded-exhaustive stateless exploration under an owned MILP back end vs lexicographic enumeration optimum",
+        note=LP_NOTE),
+    "C05": dict(
+        category="model_checking",
+        text="With -stab and no criterion the set of optimal classes is the whole feasible set of "
+             "the integer program; it is compared, in both directions, with the set of valid "
+             "matchings without SPA-STL blocking pair computed from the definition; with "
+             "maxsize/minsize the printed size is compared with the reference extremum.",
+        design_ref="DESIGN.md 5 C05",
+        technique="bounded-exhaustive enumeration of all 0/1 points of the real integer program vs blocking-pair definition",
+        note=LP_NOTE),
+    "C06": dict(
+        category="exploration",
+        text="Every two-sided instance of the families is loaded through the real Solver and "
+             "Model.check_stability is called on every capacity-respecting assignment; result must "
+             "be a bool equal to the reference 'no blocking pair'. Plus end-to-end: every -stab run "
+             "prints stability_correct: True for every optimal class.",
+        design_ref="DESIGN.md 5 C06",
+        technique="bounded-exhaustive input enumeration against the definition",
+        note="Trusted base: vf/ref.py blocking-pair definition (cross-checked against native HR definition at setup). Bounded to the listed families."),
+    "C11": dict(
+        category="model_checking",
+        text="Same exploration as C01 (every feasible matching is reported once when no criterion "
+             "is given); all statistics of the short and long text and all three listings are "
+             "recomputed from the abstract instance and the printed matching line.",
+        design_ref="DESIGN.md 5 C11",
+        technique="bounded-exhaustive stateless exploration under an owned MILP back end; recomputation oracle",
+        note=LP_NOTE),
 }
 
 NOT_YET = "check not built yet in this round (planned, see DESIGN.md section 5)"
